@@ -190,7 +190,7 @@ def check_dense(case, ev):
     return None
 
 
-REPLAY = {"lines": check_line, "grid": check_grid, "dense": check_dense}
+REPLAY = {"longline": check_line, "lines": check_line, "grid": check_grid, "dense": check_dense}
 
 _asn = st.one_of(st.sampled_from(BOUNDARY), st.sampled_from(RELATED), st.integers(0, 4294967295), st.integers(0, 70000))
 _PUNCT = list(" !\"#$%&'()*+,-./:;<=>?@[\\]^_`{|}~") + ["\t", "é", "AS", "as", " ", "  "]
@@ -236,10 +236,25 @@ def t_dense(shard, nshards, seed, ev, known, nsalts=4):
     return core.enum_drive(cases, check_dense, ev, known, "dense")
 
 
+def t_longline(shard, nshards, seed, ev, known, ntok=14000):
+    cases = []
+    for k in range(nshards):
+        if k % nshards != shard:
+            continue
+        nums = ["65001", "64512", "123", "4200000001"]
+        toks = []
+        for i in range(ntok):
+            h = core.derive("asl", seed, k, i)
+            toks.append(nums[h % 4] if h % 3 == 0 else str(h % 100000 + 70000))
+        cases.append({"nums": nums, "line": "as-path " + [" ", "_", ","][k % 3].join(toks), "salt": "long%d" % k, "via": "io"})
+    return core.enum_drive(cases, check_line, ev, known, "longline")
+
+
 def plan(tier):
     q = tier == "quick"
     return [
         Task("lines", t_lines, shards=4 if q else 16, n=1500 if q else 40000),
         Task("grid", t_grid, shards=4 if q else 16, nsalts=1500 if q else 30000),
+        Task("longline", t_longline, shards=2 if q else 6, ntok=14000 if q else 40000),
         Task("dense", t_dense, shards=2 if q else 8, nsalts=2 if q else 40),
     ]
